@@ -28,13 +28,26 @@ def gen(rep, family, consts, record=False):
 
 
 def check_split(sg, rep, o, seed):
+    """each sample is one row of the feature array and one entry / row of the label array: scalar labels with
+    (n, 1) features, and one-hot-like label rows (n, 3) with image-like features (n, 2, 2)"""
+    for form in ("scalar", "rows"):
+        check_split_form(sg, rep, o, seed, form)
+
+
+def check_split_form(sg, rep, o, seed, form):
     from synapgrad.nn.utils.data import split_dataset
     n = o["n"]
-    X = np.arange(n, dtype=np.float32).reshape(n, 1) if n else np.zeros((0, 1), dtype=np.float32)
-    y = 100 + np.arange(n, dtype=np.float32)
+    if form == "scalar":
+        X = np.arange(n, dtype=np.float32).reshape(n, 1) if n else np.zeros((0, 1), dtype=np.float32)
+        y = 100 + np.arange(n, dtype=np.float32)
+        lab = lambda ids: 100 + np.array(ids, dtype=np.float32)      # noqa: E731
+    else:
+        X = (np.arange(n, dtype=np.float32).reshape(n, 1, 1) + np.array([[0, 1000], [2000, 3000]], dtype=np.float32)) if n else np.zeros((0, 2, 2), dtype=np.float32)
+        y = np.arange(n, dtype=np.float32).reshape(n, 1) + np.array([100, 200, 300], dtype=np.float32) if n else np.zeros((0, 3), dtype=np.float32)
+        lab = lambda ids: np.array(ids, dtype=np.float32).reshape(-1, 1) + np.array([100, 200, 300], dtype=np.float32)      # noqa: E731
     ts = o["ts"][0] / o["ts"][1]
     vs = None if not o["vs"] else o["vs"][0][0] / o["vs"][0][1]
-    key = "split:%s:%s" % ("shuffle" if o["shuffle"] else "ordered", "val" if o["hasval"] else "noval")
+    key = "split:%s:%s%s" % ("shuffle" if o["shuffle"] else "ordered", "val" if o["hasval"] else "noval", "" if form == "scalar" else ":label-rows")
     np.random.seed(seed)
     try:
         train, test, val = split_dataset(X, y, test_split=ts, val_split=vs, shuffle=o["shuffle"])
@@ -56,8 +69,11 @@ def check_split(sg, rep, o, seed):
             rep.violation(key + ":size:" + name, "n=%d test=%s val=%s: %s has %d samples, floor rule %d" % (n, ts, vs, name, len(Xs), want), o)
             return
         ids = [int(v) for v in Xs.reshape(len(Xs), -1)[:, 0]] if len(Xs) else []
-        if len(ys) and not np.array_equal(np.asarray(ys).reshape(-1), 100 + np.array(ids, dtype=np.float32)):
-            rep.violation(key + ":pairing:" + name, "features and labels of %s are not paired" % name, o)
+        want_y = lab(ids)
+        if len(ys) and (np.asarray(ys).shape != want_y.shape or not np.array_equal(np.asarray(ys), want_y)):
+            rep.violation(key + ":pairing:" + name, "features and labels of %s are not paired: samples %s came with labels %s" % (name, ids, np.asarray(ys).tolist()), o)
+        if form == "rows" and len(Xs) and not np.array_equal(np.asarray(Xs), np.array(ids, dtype=np.float32).reshape(-1, 1, 1) + np.array([[0, 1000], [2000, 3000]], dtype=np.float32)):
+            rep.violation(key + ":features:" + name, "feature rows of %s were not returned intact" % name, o)
         if not o["shuffle"] and ids != sorted(ids):
             rep.violation(key + ":order:" + name, "%s not in original order: %s" % (name, ids), o)
         seen += ids
